@@ -988,8 +988,8 @@ func TestCellSweep(t *testing.T) {
 			if !rec.Mine(unit) {
 				continue
 			}
-			// quick tier: a named variant runs on a third of the shapes (rotating with the seed)
-			if !rec.Thorough() && ty.named && (si+int(rec.Seed()))%3 != 0 {
+			// quick tier: a named variant runs on a quarter of the shapes (rotating with the seed)
+			if !rec.Thorough() && ty.named && (si+int(rec.Seed()))%4 != 0 {
 				continue
 			}
 			for _, c := range sw.cellsOf(sh, ty, unit) {
